@@ -629,8 +629,9 @@ func lexInsideTag(l *lexer) stateFn {
 func lexNegative(l *lexer) stateFn {
 	// is it unary or binary op?
 	// binary if the previous token ends a value (a literal, an identifier, a
-	// data reference or a closing bracket), else unary.
-	if !endsValue(l.lastEmit.typ) {
+	// data reference or a closing bracket), else unary.  ("in" is the keyword
+	// of {for $x in ...}, not a value.)
+	if !endsValue(l.lastEmit.typ) || (l.lastEmit.typ == itemIdent && l.lastEmit.val == "in") {
 		// is it a negative number?
 		if l.peek() >= '0' && l.peek() <= '9' {
 			l.backup()
